@@ -402,10 +402,10 @@ def plan_c13(run, prop, tier):
     return acc
 
 
-def cfg_mergegen(cap, gids, hids, maxg, maxh, maxextra, withreads, maxn=2):
-    return ("INIT Init\nNEXT Next\nCONSTANTS Cap = %d GIds = %s HIds = %s Labels = {\"a\", \"b\"} MaxG = %d MaxH = %d MaxExtra = %d WithReads = %s\n"
+def cfg_mergegen(cap, gids, hids, maxg, maxh, maxextra, withreads, maxn=2, ghosts=False):
+    return ("INIT Init\nNEXT Next\nCONSTANTS Cap = %d GIds = %s HIds = %s Labels = {\"a\", \"b\"} MaxG = %d MaxH = %d MaxExtra = %d WithReads = %s WithGhosts = %s\n"
             " MaxN = %d MaxGroups = 14 MaxGroupSize = 16\nCHECK_DEADLOCK FALSE\n"
-            % (cap, int_set(gids), int_set(hids), maxg, maxh, maxextra, "TRUE" if withreads else "FALSE", maxn))
+            % (cap, int_set(gids), int_set(hids), maxg, maxh, maxextra, "TRUE" if withreads else "FALSE", "TRUE" if ghosts else "FALSE", maxn))
 
 
 MERGE_TOKENS = [
@@ -450,6 +450,9 @@ def plan_merge(run, prop, tier):
     if prop == "C11":
         e4_merge(run, acc, "trees g<=2 x h<=3, reads", cfg_mergegen(6, [0, 1], [1, 2, 3], 2, 3, 0, True), [(2, 6, 0), (2, 9, 1), (16, 64, 2)])
         e4_merge(run, acc, "trees g<=2 x h<=2 + extras<=2", cfg_mergegen(6, [0, 1], [0, 1, 2, 3], 2, 2, 2, False), [(2, 6, 1)], stride=3)
+        # a left graph with history (a collected group whose ids the allocator hands out again) and a tight capacity
+        e4_merge(run, acc, "trees g<=2 x h<=3, left graph with a collected group", cfg_mergegen(6, [0, 1], [1, 2, 3], 2, 3, 0, False, ghosts=True), [(2, 6, 2)])
+        e4_merge(run, acc, "trees g<=3 x h<=3 in capacity 4 (results that just fit)", cfg_mergegen(4, [0, 1, 2], [1, 2, 3], 3, 3, 0, False), [(2, 4, 0)])
         if tier == "thorough":
             e4_merge(run, acc, "trees g<=3 x h<=3, reads", cfg_mergegen(7, [0, 1, 2], [1, 2, 3], 3, 3, 0, True), [(2, 7, 0), (3, 16, 1), (16, 256, 2)])
     else:
